@@ -1,11 +1,11 @@
 #!/bin/bash
-# usage: confirm_mutant.sh <ID> <property-check-id>
+# usage: confirm_mutant.sh <ID> <property-check-id> [suffix]   (suffix b = second-round mutant: /tmp/mut/<ID>b, /verif/seeded/<ID>b)
 # 1. confirms in the agent's scratch worktree /tmp/wt-<ID> that the demo fails with the change and passes without it,
 #    and that the repository's own suite passes with the change;
 # 2. applies the patch to /repo, runs ./check <prop> --tier quick, and reverts /repo;
 # 3. stores the mutant under /verif/seeded/<ID>/.
 set -u
-ID=$1; PROP=${2:-$1}; WT=/tmp/wt-$ID; M=/tmp/mut/$ID
+WTID=$1; PROP=${2:-$1}; SUF=${3:-}; WT=/tmp/wt-$WTID; ID=$WTID$SUF; M=/tmp/mut/$ID
 export GOFLAGS=-mod=mod GOPROXY=off GOSUMDB=off GOTOOLCHAIN=local
 cd $WT || exit 2
 DEMO=$(python3 -c "import json;print(json.load(open('$M/meta.json'))['demo_cmd'])")
